@@ -46,8 +46,10 @@ BOUND = {
     "quick": "(1) 2 sizes x all pairs of 203 coordinates + 3-axis block; (2) "
     "2 atoms x 36-point lattice x {2,5}: all states x all operations; (3) "
     "bare S3 cases (AMBER, default/noopt), water probes for polar hosts, "
-    "partner pairs on the ideal slots of a hydroxyl (+ water), peptide + "
-    "strand + waters + ion complexes, 1AJJ / 1BX8 / 1A1P / cterm_hid runs",
+    "partner pairs on the ideal slots of a hydroxyl (+ water), hydroxyl-"
+    "hydroxyl partner poses, hydrogenated inputs through the pKa path, "
+    "peptide + strand + waters + ion complexes, 1AJJ / 1BX8 / 1A1P / "
+    "cterm_hid runs",
     "thorough": "(2) additionally 3 atoms x 12-point lattice; (3) additionally "
     "all clash and partner poses of the quick C04 corpus",
 }
